@@ -26,7 +26,8 @@ def job_threads(args):
     fns = [(lambda s=s: outcome(full, s["models"], s["options"], s["options"].get("structure", "flat")))
            for s in specs]
     results = baton.run(fns, timeout=args.get("timeout", 100))
-    return {"outcomes": results, "schedule": baton.schedule(), "probe": baton.probe, "steps": baton.step}
+    return {"outcomes": results, "schedule": baton.schedule(), "probe": baton.probe, "steps": baton.step,
+            "over_budget": baton.over_budget}
 
 
 # ---- parent side --------------------------------------------------------------------------------------------------
@@ -50,7 +51,8 @@ def make_run(seed, i):
         fixed = dict(scalar_kinds=["str_int", "str_float", "str_int", "str_float", "str_bool", "str_plain"], p_hetero=0.8,
                      p_null=0.0, p_container=0.0, width=rng.randint(2, 5), samples=rng.randint(3, 6), p_self=0.0)
     for t in range(n):
-        w = gen_workload(seeds.derive(seed, PROP, i, "thread", 0 if same_doc else t), **fixed)
+        # (bulk sample lists are excluded: under line tracing with frequent baton hand-offs they take minutes)
+        w = gen_workload(seeds.derive(seed, PROP, i, "thread", 0 if same_doc else t), **dict(fixed, bulk=0))
         o = dict(w["options"])
         if same_doc and t:
             vr = seeds.derive(seed, PROP, i, "variation", t)
@@ -67,6 +69,18 @@ def make_run(seed, i):
             # the process-global default string-type registry, shared by every thread that does not pass its own
             o["str_types"] = "default"
         specs.append({"models": w["models"], "options": o})
+    if n >= 2 and rng.random() < 0.04:
+        # one thread works on a very deeply nested document (far beyond the default recursion limit: alone it ends in
+        # RecursionError on a tree that does not raise the limit, and completes on one that does): interpreter-wide
+        # settings changed temporarily by one pipeline must not leak into another
+        depth = rng.choice([560, 640])
+        doc = {"leaf": 1}
+        for lvl in range(depth):
+            # distinct keys per level: the levels must not be similar to each other (no merging, no group closure)
+            doc = {f"a{lvl}": 1, f"b{lvl}": "x", "n": doc}
+        specs[rng.randrange(n)] = {"models": [["Deep", [doc]]],
+                                   "options": dict(specs[0]["options"], structure="flat", dict_keys_regex=[], dict_keys_fields=[],
+                                                   merge=["exact"], str_types=["int", "float", "bool"])}
     srng = seeds.derive(seed, PROP, i, "schedule")
     sched = {"seed": srng.getrandbits(48), "mean_gap": srng.choice([2, 3, 10, 30, 100, 300, 1000, 3000]),
              "p_target": srng.choice([0.0, 0.2, 0.5]), "p_first": srng.choice([0.0, 0.3, 0.7])}
@@ -83,6 +97,13 @@ def ref_outcome(res, spec):
 
 def mismatches(refs, outs):
     return [t for t, (r, o) in enumerate(zip(refs, outs)) if r != o]
+
+
+def judged(res):
+    """Every completed run is judged.  A run whose line-step budget ran out simply stopped being pre-empted from that
+    point on (nothing is ever raised into the code under test); it is still a legal execution and its explicit switch
+    list replays it.  Such runs are counted in the evidence."""
+    return True
 
 
 def describe(ref, out):
@@ -120,7 +141,7 @@ def minimise(pool, run, res, refs, bad):
     # 1. degenerate schedule: the failing pipeline alone on one worker thread, no switch
     single = {"specs": [spec]}
     r1, o1 = evaluate(pool, single, replay={"first": 0, "switches": [], "handoffs": {}})
-    if mismatches(r1, o1["outcomes"]):
+    if judged(o1) and mismatches(r1, o1["outcomes"]):
         def test_batch(cands):
             jobs_ref = pool.map("pipeline:job_full", [ref_job({"models": c["models"], "options": c["options"]})
                                                       for c in cands], timeout=60)
@@ -131,8 +152,9 @@ def minimise(pool, run, res, refs, bad):
             for c, a, b in zip(cands, jobs_ref, jobs_thr):
                 try:
                     ra = unwrap(a)[c["options"].get("structure", "flat")]
-                    rb = unwrap(b)["outcomes"][0]
-                    out.append(ra != rb and violation_key(ra, rb) == violation_key(r1[0], o1["outcomes"][0]))
+                    ub = unwrap(b)
+                    rb = ub["outcomes"][0]
+                    out.append(judged(ub) and ra != rb and violation_key(ra, rb) == violation_key(r1[0], o1["outcomes"][0]))
                 except Exception:  # noqa
                     out.append(False)
             return out
@@ -149,7 +171,7 @@ def minimise(pool, run, res, refs, bad):
             rr, oo = evaluate(pool, run, replay=rp)
         except Exception:  # noqa
             return False
-        return bool(mismatches(rr, oo["outcomes"]))
+        return judged(oo) and bool(mismatches(rr, oo["outcomes"]))
 
     # a failure is usually decided by the first few switches: binary-search the shortest failing prefix, then ddmin
     sw = sched0["switches"]
@@ -186,6 +208,7 @@ def run(ctx):
     threads_hist = {}
     samples = []
     evaluations = 0
+    skipped_over_budget = 0
     with Pool(ctx.jobs, instrument=True) as pool:
         ref_jobs, index = [], []
         for i, r in enumerate(runs):
@@ -218,6 +241,7 @@ def run(ctx):
                                 "n_switches": len(res["schedule"]["switches"]),
                                 "thread0_models_excerpt": str(r["specs"][0]["models"])[:300],
                                 "thread0_options": r["specs"][0]["options"]})
+            skipped_over_budget += bool(res.get("over_budget"))
             bad = mismatches(refs[i], res["outcomes"])
             if bad:
                 key0 = violation_key(refs[i][bad[0]], res["outcomes"][bad[0]])
@@ -232,6 +256,9 @@ def run(ctx):
                     "alone_outcome": rr[t], "thread_outcome": oo["outcomes"][t],
                     "clause": "thread outcome == alone outcome",
                 }, f"{len(mrun['specs'])} thread(s), {len(rp['switches'])} switch(es): " + describe(rr[t], oo["outcomes"][t]))
+    if skipped_over_budget > max(3, n_runs // 50):
+        from ..pool import HarnessError
+        raise HarnessError(f"{skipped_over_budget} runs exceeded the line-step budget")
     warn = [k for k in ("switch_while_2_in_generate_code", "switch_in_context_manager",
                         "thread_started_after_other_finished", "switch_in_models_meta",
                         "switch_while_2_nonempty_mappings") if not probes.get(k)]
@@ -244,7 +271,7 @@ def run(ctx):
         "samples": samples,
         "distinct_interleavings": len(distinct),
         "threads_histogram": {str(k): v for k, v in sorted(threads_hist.items())},
-        "line_steps_total": steps_total,
+        "line_steps_total": steps_total, "runs_over_step_budget_not_preempted_to_the_end": skipped_over_budget,
         "switches_total": switches_total,
         "reach_probes_runs": probes,
         "reach_warnings": warn,
@@ -261,7 +288,7 @@ def replay(ctx, payload):
     with Pool(min(ctx.jobs, 2), instrument=True) as pool:
         run_ = {"specs": payload["specs"]}
         refs, res = evaluate(pool, run_, replay=payload["schedule"])
-        bad = mismatches(refs, res["outcomes"])
+        bad = mismatches(refs, res["outcomes"]) if judged(res) else []
         if bad:
             return True, describe(refs[bad[0]], res["outcomes"][bad[0]])
     return False, "not reproduced"
